@@ -70,6 +70,10 @@ pub mod capture {
     /// (item name, Debug rendering of its LIR instructions, one per line)
     pub static LIR: Mutex<Vec<(String, Vec<String>)>> = Mutex::new(Vec::new());
 
+    /// (address, name, bytes as stored by the runtime) of every registered constant
+    pub static CONSTANTS: Mutex<Vec<(usize, String, Vec<u8>)>> =
+        Mutex::new(Vec::new());
+
     /// (data id, bytes)
     pub static DATA: Mutex<Vec<(u32, Vec<u8>)>> = Mutex::new(Vec::new());
 
@@ -85,6 +89,10 @@ pub mod capture {
         LIR.lock().unwrap().push((name.to_string(), instructions));
     }
 
+    pub fn constant(addr: usize, name: String, bytes: Vec<u8>) {
+        CONSTANTS.lock().unwrap().push((addr, name, bytes));
+    }
+
     pub fn data(id: u32, bytes: &[u8]) {
         DATA.lock().unwrap().push((id, bytes.to_vec()));
     }
@@ -96,6 +104,7 @@ pub mod capture {
     pub fn reset() {
         CLIF.lock().unwrap().clear();
         LIR.lock().unwrap().clear();
+        CONSTANTS.lock().unwrap().clear();
         DATA.lock().unwrap().clear();
         SYMBOLS.lock().unwrap().clear();
     }
